@@ -58,7 +58,7 @@ import (
 type WeakHash struct {
 	MinLen  int               `json:"minlen"`
 	HashLen int               `json:"hashlen"`
-	Table   map[string][]byte `json:"table"`
+	Table   map[string][]int `json:"table"`
 }
 
 type tableHash struct {
@@ -70,7 +70,11 @@ func (t *tableHash) Write(p []byte) (int, error) { t.buf = append(t.buf, p...); 
 func (t *tableHash) Sum(b []byte) []byte {
 	out := make([]byte, t.w.HashLen)
 	if v, ok := t.w.Table[string(t.buf)]; ok {
-		copy(out, v)
+		for i := range out {
+			if i < len(v) {
+				out[i] = byte(v[i])
+			}
+		}
 	} else {
 		s := sha256.Sum256(t.buf)
 		copy(out, s[:])
@@ -285,6 +289,10 @@ func (a *App) dataExportGenesis(ctx sdk.Context) json.RawMessage {
 	bz, err := a.dat.ExportGenesis(ctx, a.cdc)
 	must(err)
 	return bz
+}
+
+func (a *App) dataValidateGenesis(bz json.RawMessage) error {
+	return datamodule.Module{}.ValidateGenesis(a.cdc, nil, bz)
 }
 
 func (a *App) DefaultEcoGenesis() json.RawMessage  { return a.eco.DefaultGenesis(a.cdc) }
